@@ -510,13 +510,54 @@ func ruleBatchSupplyInvariant(c *Ctx, m *Model) {
 	for rf := range fl.fns {
 		for _, blk := range rf.Blocks {
 			for _, in := range blk.Instrs {
-				ci, ok := in.(*ssa.Call)
-				if !ok || !returnsRowOf(m, ci, "BatchBalance") {
+				// a row is read from the iterator — or taken out of a slice the rows were collected into
+				var ci ssa.Instruction
+				var rowVals []ssa.Value
+				switch x := in.(type) {
+				case *ssa.Call:
+					if !returnsRowOf(m, x, "BatchBalance") {
+						continue
+					}
+					ci = x
+					rowVals = append(rowVals, x)
+					for _, rf := range *x.Referrers() {
+						if ex, isEx := rf.(*ssa.Extract); isEx {
+							rowVals = append(rowVals, ex)
+						}
+					}
+				case *ssa.UnOp:
+					ia, isIA := x.X.(*ssa.IndexAddr)
+					if !isIA || x.Op != token.MUL {
+						continue
+					}
+					if tb := m.TableOfRow(x.Type()); tb == nil || tb.Name != "BatchBalance" {
+						continue
+					}
+					if _, isSl := ia.X.Type().Underlying().(*types.Slice); !isSl {
+						continue
+					}
+					ci = x
+				default:
 					continue
 				}
 				nRows++
+				// collecting the row for a later pass counts as dealing with it here: the later pass is a
+				// row read of its own
+				collect := map[ssa.Instruction]bool{}
+				for _, rv := range rowVals {
+					for _, rf := range *rv.Referrers() {
+						if st, isSt := rf.(*ssa.Store); isSt && st.Val == rv {
+							if _, isIA := st.Addr.(*ssa.IndexAddr); isIA {
+								collect[st] = true
+							}
+						}
+					}
+				}
 				for _, col := range []string{"TradableAmount", "EscrowedAmount", "RetiredAmount"} {
 					sites := map[ssa.Instruction]bool{}
+					for st := range collect {
+						sites[st] = true
+					}
 					for _, u := range fl.updates {
 						if !u.srcs["col:BatchBalance."+col] {
 							continue
@@ -728,10 +769,44 @@ type invFlow struct {
 	maps    []ssa.Value
 	clos    map[*ssa.Function]*ssa.MakeClosure
 	stack   []ssa.Instruction
+	// maps kept in fields of a carrier struct: "type#field" → representative load
+	fieldMaps map[string]ssa.Value
 }
 
 func newInvFlow(m *Model, root *ssa.Function) *invFlow {
 	return &invFlow{m: m, root: root, fns: map[*ssa.Function]bool{}, clos: map[*ssa.Function]*ssa.MakeClosure{}}
+}
+
+// canonMap: the identity of an accumulator map — the make site of a local map, or, for a map kept in a
+// field of a carrier struct (accumulators and findings gathered in one value with methods), the first
+// load of that field seen: all loads of one field of one struct type stand for one map.
+func (f *invFlow) canonMap(v ssa.Value) ssa.Value {
+	switch x := v.(type) {
+	case *ssa.MakeMap:
+		return x
+	case *ssa.UnOp:
+		fa, ok := x.X.(*ssa.FieldAddr)
+		if !ok || x.Op != token.MUL {
+			return nil
+		}
+		if _, isMap := x.Type().Underlying().(*types.Map); !isMap {
+			return nil
+		}
+		pt, ok := fa.X.Type().Underlying().(*types.Pointer)
+		if !ok {
+			return nil
+		}
+		id := fmt.Sprintf("%s#%d", pt.Elem().String(), fa.Field)
+		if f.fieldMaps == nil {
+			f.fieldMaps = map[string]ssa.Value{}
+		}
+		if r, has := f.fieldMaps[id]; has {
+			return r
+		}
+		f.fieldMaps[id] = x
+		return x
+	}
+	return nil
 }
 
 func (f *invFlow) mapID(v ssa.Value) string {
@@ -847,7 +922,7 @@ func (f *invFlow) srcs(v ssa.Value, b *invBind, depth int, out map[string]bool) 
 		f.srcs(x.Tuple, b, depth+1, out)
 	case *ssa.Lookup:
 		mv, _ := f.resolve(x.X, b)
-		if _, ok := mv.(*ssa.MakeMap); ok {
+		if mv = f.canonMap(mv); mv != nil {
 			out["map:"+f.mapID(mv)] = true
 		}
 	case *ssa.Phi:
@@ -879,7 +954,7 @@ func (f *invFlow) scan(fn *ssa.Function, b *invBind, depth int) {
 				}
 			case *ssa.MapUpdate:
 				mv, _ := f.resolve(x.Map, b)
-				if _, ok := mv.(*ssa.MakeMap); !ok {
+				if mv = f.canonMap(mv); mv == nil {
 					continue
 				}
 				f.mapID(mv)
